@@ -535,3 +535,40 @@ func (h *h1) segDump() string {
 	}
 	return out
 }
+
+// epochCheck compares the leader-epoch history with the messages present: ordered, not beyond the log end
+// (on a live log an epoch may begin at the next offset: a leader was elected and has not appended yet), and
+// consistent with the epoch every record carries.
+func (h *h1) epochCheck(clause string, live bool) {
+	if h.stop {
+		return
+	}
+	eps := h.log.leaderEpochCache.epochOffsets
+	h.oc.Checks++
+	for i, e := range eps {
+		if i > 0 && (e.leaderEpoch <= eps[i-1].leaderEpoch || e.startOffset < eps[i-1].startOffset) {
+			h.fail(clause, clause+"/epoch-order", "epoch cache not ordered: %s", epochList(eps))
+			return
+		}
+		if live && e.startOffset == h.next {
+			continue
+		}
+		if e.startOffset > h.next-1 && !(len(h.model) == 0) {
+			h.fail(clause, clause+"/epoch-beyond-end", "epoch %d starts at %d beyond the log end %d: %s", e.leaderEpoch, e.startOffset, h.next-1, epochList(eps))
+			return
+		}
+	}
+	for _, r := range h.model {
+		for _, e := range eps {
+			if e.startOffset < r.off && e.leaderEpoch > r.epoch {
+				h.fail(clause, clause+"/epoch-mismatch", "record %d has epoch %d but the cache says epoch %d began at %d: %s", r.off, r.epoch, e.leaderEpoch, e.startOffset, epochList(eps))
+				return
+			}
+			if e.startOffset > r.off && e.leaderEpoch <= r.epoch {
+				h.fail(clause, clause+"/epoch-mismatch", "record %d already has epoch %d but the cache says epoch %d begins only at %d: %s", r.off, r.epoch, e.leaderEpoch, e.startOffset, epochList(eps))
+				return
+			}
+		}
+	}
+}
+
